@@ -6,6 +6,7 @@ mod c14;
 mod c18;
 mod c19;
 mod c20;
+mod c20w;
 
 use vcommon::Args;
 
@@ -21,6 +22,7 @@ fn main() {
         "c18" => c18::main(&args),
         "c19" => c19::main(&args),
         "c20" => c20::main(&args),
+        "c20w" => c20w::main(&args),
         other => {
             eprintln!("unknown subcommand {other:?}");
             std::process::exit(3);
